@@ -287,6 +287,7 @@ Chem(par, fn, a, cb) ==
 \* ------------------------------------------------------------------ closed forms (C08)
 SodMinGap == NFromRat(1, 1000)       \* points closer than this (in x/t) to a wave front are not judged
 Sod(par, fn, a) ==
+  IF ~NLt(N0, NFromStr(a[2])) \/ ~NLt(N1, PN(par, "Gamma")) THEN Undefined ELSE       \* t > 0, Gamma > 1
   LET st == SodState(PN(par, "Gamma"), PN(par, "mu"), NFromStr(a[1]), NFromStr(a[2]))
       near == \E i \in 1..4 : NLt(NAbs(NSub(st.xi, st.fronts[i])), SodMinGap)
   IN  IF near THEN Undefined
@@ -307,6 +308,18 @@ CpNormal(par, vec, fn, a, di) ==
         [] fn = "posterior_variance" -> PostVar(n, sg, sd)
         [] fn = "central_moment" -> IF di \in 0..40 THEN CentralMoment(di, sg) ELSE Undefined
         [] OTHER -> Undefined
+
+\* ------------------------------------------------------------------ radiation (not named by C01-C08: growth)
+\* source_u = sum_i amp_i exp(-(x - mean_i)^2 / (2 stdev_i^2)); -1 when the three vectors differ in length
+RECURSIVE GaussSum(_, _, _, _, _)
+GaussSum(x, amp, mean, sd, i) ==
+  IF i > Len(amp) THEN N0
+  ELSE NAdd(NMul(NFromStr(amp[i]), NExp(NNeg(NDiv(NSq(NSub(x, NFromStr(mean[i]))), NMul(N2, NSq(NFromStr(sd[i]))))))),
+            GaussSum(x, amp, mean, sd, i + 1))
+Radiation(vec, fn, a) ==
+  IF fn # "source_u" THEN Undefined
+  ELSE IF Len(vec["vec_amp"]) # Len(vec["vec_mean"]) \/ Len(vec["vec_amp"]) # Len(vec["vec_stdev"]) THEN NNeg(N1)
+  ELSE GaussSum(NFromStr(a[1]), vec["vec_amp"], vec["vec_mean"], vec["vec_stdev"], 1)
 
 \* ------------------------------------------------------------------ dispatch
 HeatSols == {"heateq_1d_steady_const", "heateq_2d_steady_const", "heateq_3d_steady_const",
@@ -398,6 +411,8 @@ Expected(sol, par, vec, fn, sig, args, cb, variant) ==
     [] sol = "euler_chem_1d" -> Chem(par, fn, a, cb)
     [] sol = "sod_1d" -> IF sig = "SS" THEN Sod(par, fn, a) ELSE Undefined
     [] sol = "cp_normal" -> IF Len(vec["vec_data"]) = 0 THEN Undefined ELSE CpNormal(par, vec, fn, IF Len(a) > 0 THEN a ELSE <<"0">>, di)
+    [] sol = "radiation_integrated_intensity" ->
+         IF \E k \in DOMAIN vec : vec[k] = <<"$unk">> THEN Undefined ELSE Radiation(vec, fn, a)
     [] sol = "laplace_2d" ->
          IF fn = "exact_phi" THEN JV(LaplacePhi(par, C))
          ELSE IF fn = "source_f" THEN Laplacian(LaplacePhi(par, C)) ELSE Undefined
@@ -435,6 +450,8 @@ OracleAccept(p, sol, par, vec, fn, sig, args, cb, ret) ==
       e == Expected(sol, par, vec, fn, sig, args, cb, known)
   IN  IF known /\ ~HasVariant(sol, fn) THEN TRUE
       ELSE IF Len(e) = 0 THEN TRUE
+      \* the mathematics is not defined at these inputs (e.g. r = 0, t = 0, a negative density): not judged
+      ELSE IF Len(e) > 1 /\ ~NIsFinite(e) THEN TRUE
       ELSE IF Len(e) = 1 THEN ~NIsFinite(NFromStr(ret))
       ELSE NClose(NFromStr(ret), e, KBits, p) /\ ErrStat(sol, fn, p, ret, e)
 =============================================================================
